@@ -708,6 +708,15 @@ func checkTemplateSpecifiersReadOnly(prog *core.Program, rr *core.RuleRun) {
 			case ssa.CallInstruction:
 				com := x.Common()
 				if b, ok := com.Value.(*ssa.Builtin); ok {
+					if b.Name() == "append" && len(com.Args) >= 1 {
+						// append(list, ...) writes behind the list's length into its backing array whenever there is
+						// spare capacity - the array of the cached template
+						if isList(com.Args[0]) {
+							bad(ins, com.Args[0], "appends to (writing into the spare capacity of)")
+						} else if sl, isSl := com.Args[0].(*ssa.Slice); isSl && isList(sl.X) {
+							bad(ins, sl.X, "appends to (writing into the array of)")
+						}
+					}
 					if b.Name() == "copy" && len(com.Args) == 2 {
 						if l := elemOf(com.Args[0], 0); l != nil {
 							bad(ins, l, "copies into")
